@@ -14,6 +14,8 @@ import (
 	"github.com/btcsuite/btcwallet/waddrmgr"
 	"github.com/btcsuite/btcwallet/wallet"
 	"github.com/btcsuite/btcwallet/wallet/txauthor"
+	"github.com/btcsuite/btcwallet/wallet/txrules"
+	"github.com/btcsuite/btcwallet/wallet/txsizes"
 )
 
 const (
@@ -208,6 +210,19 @@ func (w *world) exec(r *Request, keep bool, st *stats) (fs []finding) {
 		} else {
 			amt = sumE - mostMargin
 		}
+		if amt < smallAmount {
+			if st != nil {
+				st.skipped++
+			}
+			return nil
+		}
+	}
+	if strings.HasPrefix(r.Amount, "edge") {
+		var size int
+		fmt.Sscan(strings.TrimPrefix(r.Amount, "edge"), &size)
+		probe := []*wire.TxOut{wire.NewTxOut(smallAmount, append([]byte{}, destPk...))}
+		guess := txrules.FeeForSerializeSize(btcutil.Amount(r.FeeRate), txsizes.EstimateVirtualSize(0, 1, 0, 0, probe, size))
+		amt = sumE - int64(guess)
 		if amt < smallAmount {
 			if st != nil {
 				st.skipped++
